@@ -2,7 +2,7 @@
 """Regenerates /verif/MANIFEST.json from the table below (run after adding a check)."""
 import json
 CHECKS = {
-"C01": ("exploration", "Generated-input search: documents from grammar-based generators for all 28 language ids x server wrappers x rule configurations x dialects (30% cut at a random character, tails '', ' ', '\\n'), the prefix closure of harvested rule-trigger sentences per front-end, and CPU-time scaling families u^n; oracle = returns normally: no panic (catch_unwind), no abort and no hang (supervised child process, confirmation alone in a fresh process), CPU-time growth per doubling bounded. Refutes, never proves, termination.",
+"C01": ("exploration", "Generated-input search: documents from grammar-based generators for all 28 language ids x server wrappers x rule configurations x dialects (30% cut at a random character, tails '', ' ', '\\n'), the prefix closure of harvested rule-trigger sentences per front-end, and CPU-time scaling families (repetition u^n and nesting open^d body close^d); oracle = returns normally: no panic (catch_unwind), no abort and no hang (supervised child process, confirmation alone in a fresh process), CPU-time growth per doubling bounded. Refutes, never proves, termination.",
         "Cases run on 2 MiB-stack threads inside a supervised child. Two open known findings are excluded by exact predicates (Typst nesting depth > 256; tree-sitter-dart stalling on its own under a 3 s parser timeout).",
         "property-based testing (proptest) + exhaustive prefix enumeration + scaling measurement; oracle: returns normally"),
 "C02": ("exploration", "Validity predicate over token streams (bounds, order, disjointness, zero-width kinds, plain-English tiling, lexical shape of Word/Space/Number/Punctuation, quote twins), written from the statement with its own punctuation/currency/number tables, evaluated on Parser::parse and Document::get_tokens for generated documents of every front-end (incl. CollapseIdentifiers / IsolateEnglish wrappers) and on the prefix closure of harvested sentences.",
@@ -20,19 +20,19 @@ CHECKS = {
 "C06": ("exploration", "Every entry of the curated dictionary x 4 dialects enumerated alone (re-cased forms too), random entries inside sentence frames; conversely generated non-words must get exactly one Spelling lint with the exact span and only dictionary suggestions of the active dialect; every dialect-tagged entry alone vs inside noun-phrase frames (verdict independent of neighbours, exhaustive); user words merged with the curated dictionary are never reported in their listed capitalisation. Ground truth = the dictionary's own word list.",
         "Open known finding: 149 multi-token dictionary entries (exact list in known_findings.jsonl).",
         "exhaustive enumeration of the dictionary + property-based testing (proptest)"),
-"C07": ("fault_enumeration", "(a) Stateful LSP histories against the real harper-ls binary in a sandbox (add-to-user/file-dictionary with words taken from published diagnostics, change, restart) with a set model: added words are accepted in every subsequently checked text they apply to, other diagnostics unchanged, file dictionaries do not leak, the dictionary file (lines as a set) equals the model, restarts reproduce. (c) Crash points: each save is recorded under strace; every prefix of the globally ordered file mutations and every short write is replayed in a file-system model (validated to reproduce the real final state) and must reload to the previous words or those plus the new word. (b) import/lint/persist histories on the wasm-facing Linter with a set model. (d) a write error part-way through a save (RLIMIT_FSIZE) must leave every earlier word on disk.",
+"C07": ("fault_enumeration", "(a) Stateful LSP histories against the real harper-ls binary in a sandbox (add-to-user/file-dictionary with words taken from published diagnostics, change, restart) with a set model: added words are accepted in every subsequently checked text they apply to, other diagnostics unchanged, file dictionaries do not leak, the dictionary file (lines as a set) equals the model, restarts reproduce. (c) Crash points: each save is recorded under strace; every prefix of the globally ordered file mutations and every short write is replayed in a file-system model (validated to reproduce the real final state) and must reload to the previous words or those plus the new word. (b) import/lint/persist histories on the wasm-facing Linter with a set model. (d) a write error part-way through a save (RLIMIT_FSIZE) must leave every earlier word on disk. (e) large pre-existing dictionaries of multi-byte Latin words (LF/CRLF, regular file or relative symbolic link): nothing listed is reported after load, add and restart; the file holds exactly old words + new word; a link stays a link.",
         "Process death only (no power failure): a crash leaves a prefix of the recorded mutation sequence. Open known finding: a case variant of an earlier word replaces it (excluded by construction, exercised in a sub-run).",
         "model-based property testing over LSP and harper.js histories (proptest) + trace-and-replay crash-state enumeration (strace) + injected write fault"),
 "C08": ("exploration", "Generated multi-line documents (astral, combining, tabs, LF/CRLF, with/without trailing newline) opened in the real harper-ls under 9 language ids; for every diagnostic a codeAction request with its own range and at every char position inside it; oracle = independent LSP position arithmetic: diagnostic range == reference range of the embedded lint, every inside position returns that lint's fixes, each TextEdit applied like a client == Suggestion::apply on the char span; published set == in-process lints for plain/Markdown/HTML/Typst.",
         "Lone CR line ends are outside the property's domain and are not generated.",
         "property-based testing (proptest) against the real server; reference-model oracle"),
-"C09": ("exploration", "Stateful histories of batches of LSP messages against the real harper-ls; the harness owns the schedule by choosing the order in which it answers the handlers' workspace/configuration requests (= completion order of the in-flight handlers). After every batch the last publication of every document is compared with what a second, trivially sequential harper-ls process publishes for the newest text under the current settings and dictionaries (closed/deleted: empty). Four designed-in violations are excluded from the must-hold sub-space by construction and exercised in labelled sub-runs.",
+"C09": ("exploration", "Stateful histories of batches of LSP messages against the real harper-ls; the harness owns the schedule by choosing the order in which it answers the handlers' workspace/configuration requests (= completion order of the in-flight handlers). After every batch the last publication of every document is compared with what a second, trivially sequential harper-ls process publishes for the newest text under the current settings and dictionaries (closed/deleted: empty). Histories include deletions of files, of directories (with/without trailing slash) and of sibling paths, user-dictionary file edits, and configuration changes whose notification arrives after an edit has already pulled the new settings. Four designed-in violations are excluded from the must-hold sub-space by construction and exercised in labelled sub-runs.",
         "The harness controls handler completion order, not the tokio worker interleaving between two awaits inside the server (sampled by repetition only).",
         "model-based / differential property testing over scheduled LSP histories (proptest vec(batch) + interpreter)"),
-"C10": ("exploration", "Invariant over strace -f syscall histories of generated harper-ls sessions (every notification and command except HarperOpen, incl. dictionary saves and the statistics write at shutdown; documents with non-local URIs and with absolute paths of 150-400 bytes; one TCP-mode session and one TCP-mode start with port 4000 in use) and of a worker process that pushes generated documents through all front-ends, the harper.js API and statistics export/import: no socket/connect/send/bind/listen beyond the loopback listener, no resolver/TLS files, no exec, and writes only to the configured dictionary and statistics paths. The dependency-set clause is covered by a static cargo-metadata scan reported as an auxiliary.",
+"C10": ("exploration", "Invariant over strace -f syscall histories of generated harper-ls sessions (every notification and command except HarperOpen, incl. dictionary saves and the statistics write at shutdown; documents with non-local URIs and with absolute paths of 150-400 bytes; a user dictionary that is a relative symbolic link; dictionary paths changed silently by the client, with a state check that every added word is in the dictionary configured when the server last pulled its settings; one TCP-mode session and one TCP-mode start with port 4000 in use) and of a worker process that pushes generated documents through all front-ends, the harper.js API and statistics export/import: no socket/connect/send/bind/listen beyond the loopback listener, no resolver/TLS files, no exec, and writes only to the configured dictionary and statistics paths. The dependency-set clause is covered by a static cargo-metadata scan reported as an auxiliary.",
         "strace sees every syscall of the process tree; the dependency scan is a deny-list, not generated-input search.",
         "property-based testing (proptest) of sessions under a syscall monitor (strace); invariant over the syscall history"),
-"C11": ("exploration", "Additivity of rule switches as a metamorphic relation (lints(S) = lints(A)+lints(B), full singleton decomposition, switching one rule off removes exactly its lints, all-off = nothing), overlay algebra against a map model (fill_with_curated, merge_from, clear, JSON round trip, unknown keys), the harper.js config path and the harper-ls settings path (published diagnostics and the lints behind its code actions) against the in-process model; configurations range from a few entries to near-complete settings dumps with unknown names.",
+"C11": ("exploration", "Additivity of rule switches as a metamorphic relation (lints(S) = lints(A)+lints(B), sparse configurations (others absent / null) = dense ones (others false), full singleton decomposition, switching one rule off removes exactly its lints, all-off = nothing), overlay algebra against a map model (fill_with_curated, merge_from, clear, JSON round trip, unknown keys), the harper.js config path and the harper-ls settings path (published diagnostics and the lints behind its code actions) against the in-process model; configurations range from a few entries to near-complete settings dumps with unknown names.",
         "Rules are the distinct configuration keys (iter_keys de-duplicated).",
         "metamorphic + model-based property testing (proptest)"),
 "C12": ("exploration", "Metamorphic relation on generated pairs (P, D): lints(P+D) == lints(P) ++ shift(lints(D), |P|) as sorted multisets over all lint fields, all rules on, plain English.",
@@ -44,19 +44,19 @@ CHECKS = {
 "C14": ("exploration", "Documents with repeated problems in equal/different neighbourhoods (also next to quotes); ignore a random subset; filter on the same text, after a JSON round trip of the ignore list, and after prepending/appending paragraphs; oracle uses an independent lint identity (fields + texts of tokens within the span and 2 chars around). The same problem in two texts differing right next to it (document start, punctuation, language) may only be hidden when the identity is equal. Through the real harper-ls: ignore one diagnostic, edit elsewhere (new identifiers, comments, prepended lines), differential against a server that ignored nothing.",
         "Only lints 3+ chars away from the edit boundary are judged after an edit.",
         "property-based testing (proptest); round-trip + metamorphic oracle with an independent identity relation"),
-"C15": ("exploration", "Curated FST / mutable / merged back-ends must answer membership, exact membership, metadata, canonical spelling and *_str twins identically; fuzzy search on every dictionary of <=2 (thorough 3) short words over {a,b,B,'} x every query <=3 x bounds x caps exhaustively, random dictionaries and the curated dictionary against brute-force Levenshtein; merged = union with first-child-wins.",
+"C15": ("exploration", "Curated FST / mutable / merged back-ends must answer membership, exact membership, metadata, canonical spelling and *_str twins identically; fuzzy search on every dictionary of <=2 (thorough 3) short words over {a,b,B,'} x every query <=3 x bounds x caps exhaustively, random dictionaries and the curated dictionary against brute-force Levenshtein; constructed dictionaries with typographic apostrophes in the stored words: mutable, FST built from it and merged wrappers agree; merged = union (first child wins, an unrestricted entry for the very spelling lifts a dialect restriction).",
         "Small dictionaries are built the way callers build them (MutableDictionary, then FstDictionary::from).",
         "differential + reference-model property testing (proptest) + exhaustive small-scope enumeration"),
-"C16": ("exploration", "Stateful call sequences on harper_wasm::Linter (native rlib): lint / apply_suggestion / ignore_lint / import_words / export-clear-import / rebuild from exports / set config, both languages, all dialects; intrinsic invariants (spans, disjointness, problem text, JSON round trips), reference splice, and a differential against an in-process model with the C14 identity for ignores.",
+"C16": ("exploration", "Stateful call sequences on harper_wasm::Linter (native rlib): lint / apply_suggestion / ignore_lint / import_words / export-clear-import / rebuild from exports / set config, switching a rule that fires on a text between two lints of it, both languages, all dialects; intrinsic invariants (spans, disjointness, problem text, JSON round trips), reference splice, and a differential against an in-process model with the C14 identity for ignores.",
         "JsValue-typed methods cannot run natively; their JSON twins are used.",
         "model-based property testing over call histories (proptest vec(op) + interpreter)"),
 "C17": ("exploration", "Every n in 0..10^5 x 4 suffixes x letter cases enumerated; random n < 2^53 biased to teens/boundaries in random sentence frames (also joined to a word by a hyphen, after earlier numbers and suffix-like words); oracle = reference ordinal rule on the integer, exact span, single correct suggestion, fix-point after applying it.",
         "Frames keep '<n><suffix>' delimited by non-alphanumeric characters.",
         "exhaustive enumeration + property-based testing (proptest); reference-model oracle"),
-"C18": ("exploration", "Generated single-paragraph titles (small words, proper nouns in wrong case / curly apostrophes, ligatures, Turkish dotted I, astral, hyphenated): same length, only case changes (or apostrophe normalisation inside a proper noun), first word upper-case, idempotent; both entry points (make_title_case_str and harper_wasm::to_title_case), paragraphs wrapped over lines and ending with a line break.",
+"C18": ("exploration", "Generated single-paragraph titles (small words, proper nouns in wrong case / curly apostrophes, ligatures, Turkish dotted I, astral, hyphenated): same length, only case changes (or apostrophe normalisation inside a proper noun), first word upper-case, idempotent; the predicate form IsNotTitleCase reports a text exactly when title-casing changes it; both entry points (make_title_case_str and harper_wasm::to_title_case), paragraphs wrapped over lines and ending with a line break.",
         "Validity predicate from the statement.",
         "property-based testing (proptest); validity predicate + idempotence"),
-"C19": ("exploration", "Histories of append sessions of lint/config records with arbitrary-Unicode contexts (real tokens from lexing + Unlintable tokens holding any characters): one line feed per record, read(write(a)++write(b)) == a++b, write is a homomorphism, summary equals a reference fold; later sessions may carry older time stamps; the same sessions imported one by one through the harper.js Linter must export the concatenation; the statistics file written by real harper-ls sessions.",
+"C19": ("exploration", "Histories of append sessions of lint/config records with arbitrary-Unicode contexts (real tokens from lexing + Unlintable tokens holding any characters): one line feed per record, read(write(a)++write(b)) == a++b, write is a homomorphism, summary equals a reference fold; configuration records with explicit null entries, numbers that need an exact float parser; later sessions may carry older time stamps; the same sessions imported one by one through the harper.js Linter must export the concatenation; the statistics file written by real harper-ls sessions.",
         "Number tokens are produced only by real lexing, so only reachable values occur.",
         "round-trip property testing over append histories (proptest)"),
 }
